@@ -101,6 +101,10 @@ func fuzzJudge(t *testing.T, sub string, c interface{}) {
 		return
 	}
 	fuzzCount(res)
+	if id := knownAfterTheFact(sub, raw, res); id != "" && knownActive(id) {
+		fzExcluded.Add(1)
+		return
+	}
 	switch {
 	case res.Infra != "":
 		fzSkipped.Add(1)
